@@ -1074,6 +1074,8 @@ func runC08(r *Run) {
 	r.NotDec = []string{"byte-identical app hashes as a run-time fact", "non-determinism inside dependencies (cosmos-sdk, evmos, go-ethereum)", "floating point in dependencies", "restart equivalence of the oracle singletons (C14)"}
 	r.Assume = []string{"distinct iteration keys address distinct store keys / map entries when the key or index expression is derived from the iteration variables", "sdk Int/Dec/Coins Add and Sub are exact"}
 	r.rule("C08.R1", "every reachable range-over-map loop is order-insensitive (per loop: constructs judged and why)", 15)
+	r.rule("C08.R6", "stored protobuf messages encode deterministically: a map field that the generated marshaller writes in Go map order does not occur in a stored message, or cannot be populated", 1)
+	c08ProtoMaps(r)
 	r.rule("C08.R1p", "slices built in map order and returned: every caller's use hides the order", 3)
 	// witness for an order-insensitive consumer: the feeder ids SealRound returns come in map order; removing
 	// their nonce items commutes only because the removal keeps the order of the remaining items
